@@ -24,9 +24,11 @@ import (
 	"strconv"
 	"strings"
 	"sync"
+	"time"
 
 	"github.com/onflow/cadence/interpreter"
 
+	"verif/harness/internal/host"
 	"verif/harness/internal/hx"
 	"verif/harness/internal/meterx"
 )
@@ -36,7 +38,7 @@ func init() {
 		mhChild()
 		os.Exit(0)
 	}
-	hx.Register(&hx.Stream{Name: "meterhist", Gen: mhGen, Exec: mhExec, Parallel: false})
+	hx.Register(&hx.Stream{Name: "meterhist", Gen: mhGen, Exec: host.Robust(mhExec, 120*time.Second, 900*time.Second), Parallel: false, Timeout: host.RobustTimeout})
 }
 
 const mhCompLimit = 200_000
@@ -115,7 +117,9 @@ var (
 	mhOnce     sync.Once
 )
 
-func mhKey(engine string, p meterx.Prog) string { return engine + "\x00" + strings.Join(p.Fields(), "\x00") }
+func mhKey(engine string, p meterx.Prog) string {
+	return engine + "\x00" + strings.Join(p.Fields(), "\x00")
+}
 
 func mhFreshCached(engine string, target meterx.Prog) (string, string, error) {
 	mhOnce.Do(func() {
